@@ -52,7 +52,10 @@ func parse_regexp_pattern(regexp_token *Token, regexp string, index int) (AstExp
 	if next_index < len(regexp) {
 		if regexp[next_index] == '|' {
 			end, idx, err := parse_regexp_pattern(regexp_token, regexp, next_index+1)
-			return &AstBranch{&AstSubExpr{[]AstExpression{start}}, end}, idx, err
+			if err != nil {
+				return nil, idx, err
+			}
+			return &AstBranch{&AstSubExpr{[]AstExpression{start}}, end}, idx, nil
 		} else {
 			return start, next_index, nil
 		}
@@ -62,13 +65,11 @@ func parse_regexp_pattern(regexp_token *Token, regexp string, index int) (AstExp
 }
 
 func parse_regexp_number(regexp_token *Token, regexp string, index int) (int, int, error) {
-	c := regexp[index]
 	result := ""
 	idx := index
-	for c >= '0' && c <= '9' {
-		result += string(c)
+	for idx < len(regexp) && regexp[idx] >= '0' && regexp[idx] <= '9' {
+		result += string(regexp[idx])
 		idx += 1
-		c = regexp[idx]
 	}
 	if result == "" {
 		return -1, index, NewParseError(regexp_token, "Unexpected Token. Expected number")
@@ -81,6 +82,9 @@ func parse_regexp_number(regexp_token *Token, regexp string, index int) (int, in
 }
 
 func parse_regexp_literal(regexp_token *Token, regexp string, index int) (AstExpression, int, error) {
+	if index >= len(regexp) {
+		return nil, index, NewParseError(regexp_token, "Unexpected end of regexp")
+	}
 	c := regexp[index]
 	var start AstLiteral
 	next_index := index
@@ -234,10 +238,13 @@ func parse_regexp_class_atom_escape(regexp_token *Token, regexp string, index in
 	if index+1 >= len(regexp) {
 		return nil, index + 1, NewParseError(regexp_token, "Unexpected end of regexp")
 	}
-	panic("PARSE ESCAPE CHARACTER")
+	return nil, index, NewParseError(regexp_token, "Escape sequences in character classes are not supported")
 }
 
 func parse_regexp_class_atom_string(regexp_token *Token, regexp string, index int) (*AstString, int, error) {
+	if index >= len(regexp) {
+		return nil, index, NewParseError(regexp_token, "Unexpected end of regexp")
+	}
 	if regexp[index] == ']' {
 		return nil, index, nil
 	}
@@ -265,9 +272,15 @@ func parse_regexp_quantifier(regexp_token *Token, regexp string, index int) (*As
 		if err != nil {
 			return nil, idx, err
 		}
+		if idx >= len(regexp) {
+			return nil, idx, NewParseError(regexp_token, "Unexpected end of regexp")
+		}
 		comma_or_brace := regexp[idx]
 
 		if comma_or_brace == ',' {
+			if idx+1 >= len(regexp) {
+				return nil, idx + 1, NewParseError(regexp_token, "Unexpected end of regexp")
+			}
 			if regexp[idx+1] == '}' {
 				exp = &AstLoop{from, -1, false, nil, ""}
 				end_idx = idx + 2
@@ -275,6 +288,9 @@ func parse_regexp_quantifier(regexp_token *Token, regexp string, index int) (*As
 				to, idx2, err := parse_regexp_number(regexp_token, regexp, idx+1)
 				if err != nil {
 					return nil, idx, err
+				}
+				if idx2 >= len(regexp) {
+					return nil, idx2, NewParseError(regexp_token, "Unexpected end of regexp")
 				}
 				brace := regexp[idx2]
 				if brace != '}' {
@@ -287,6 +303,8 @@ func parse_regexp_quantifier(regexp_token *Token, regexp string, index int) (*As
 		} else if comma_or_brace == '}' {
 			exp = &AstLoop{from, from, false, nil, ""}
 			end_idx = idx + 1
+		} else {
+			return nil, idx, NewParseError(regexp_token, "Unexpected character. Expected ',' or '}'")
 		}
 	} else {
 		exp = nil
@@ -304,6 +322,9 @@ func parse_regexp_quantifier(regexp_token *Token, regexp string, index int) (*As
 }
 
 func parse_regexp_escape_characters(regexp_token *Token, regexp string, index int) (AstLiteral, int, error) {
+	if index >= len(regexp) {
+		return nil, index, NewParseError(regexp_token, "Unexpected end of regexp")
+	}
 	c := regexp[index]
 	if c >= '1' && c <= '9' {
 		if index+1 >= len(regexp) {
@@ -331,20 +352,17 @@ func parse_regexp_escape_characters(regexp_token *Token, regexp string, index in
 	} else if c == 'B' {
 		return &AstSubExpr{[]AstExpression{&AstList{true, []AstListable{&AstCharacterClass{false, ClassWordStart}, &AstCharacterClass{false, ClassWordEnd}}}}}, index + 1, nil
 	} else if c == 'k' {
-		d := regexp[index+1]
-		if d != '<' {
+		if index+1 >= len(regexp) || regexp[index+1] != '<' {
 			return nil, index + 1, NewParseError(regexp_token, "Expected a < character for named group reference")
 		}
 		// named capture group
 		current_index := index + 2
-		current := regexp[current_index]
 		identifier := ""
-		for unicode.IsDigit(rune(current)) || unicode.IsLetter(rune(current)) {
-			identifier += string(current)
+		for current_index < len(regexp) && (unicode.IsDigit(rune(regexp[current_index])) || unicode.IsLetter(rune(regexp[current_index]))) {
+			identifier += string(regexp[current_index])
 			current_index += 1
-			current = regexp[current_index]
 		}
-		if regexp[current_index] != '>' {
+		if current_index >= len(regexp) || regexp[current_index] != '>' {
 			return nil, current_index, NewParseError(regexp_token, "Unexpected charactrer in named capture group identifier.")
 		}
 		return &AstVariable{identifier}, current_index + 1, nil
@@ -355,8 +373,14 @@ func parse_regexp_escape_characters(regexp_token *Token, regexp string, index in
 
 func parse_regexp_groups(regexp_token *Token, regexp string, index int) (AstLiteral, int, error) {
 	// already consumed the parenthesis
+	if index >= len(regexp) {
+		return nil, index, NewParseError(regexp_token, "Expected end parenthesis")
+	}
 	c := regexp[index]
 	if c == '?' {
+		if index+1 >= len(regexp) {
+			return nil, index + 1, NewParseError(regexp_token, "Invalid marker for group")
+		}
 		marker := regexp[index+1]
 		if marker == ':' {
 			// non capture group
@@ -364,39 +388,40 @@ func parse_regexp_groups(regexp_token *Token, regexp string, index int) (AstLite
 			if err != nil {
 				return nil, next_index, err
 			}
-			if regexp[next_index] != ')' {
+			if next_index >= len(regexp) || regexp[next_index] != ')' {
 				return nil, next_index, NewParseError(regexp_token, "Expected end parenthesis")
 			}
 			return &AstSubExpr{subexpr}, next_index + 1, nil
 		} else if marker == '=' {
-			panic("Positive lookahead unimplemented")
+			return nil, index + 1, NewParseError(regexp_token, "Positive lookahead is not supported")
 		} else if marker == '!' {
-			panic("Negative lookahead unimplemented")
+			return nil, index + 1, NewParseError(regexp_token, "Negative lookahead is not supported")
 		} else if marker == '<' {
 			// lookbehind or named capture group
+			if index+2 >= len(regexp) {
+				return nil, index + 2, NewParseError(regexp_token, "Unexpected end of regexp")
+			}
 			a := regexp[index+2]
 			if a == '=' {
-				panic("Positive lookbehind unimplemented")
+				return nil, index + 2, NewParseError(regexp_token, "Positive lookbehind is not supported")
 			} else if a == '!' {
-				panic("Negative lookahead unimplemented")
+				return nil, index + 2, NewParseError(regexp_token, "Negative lookbehind is not supported")
 			} else {
 				// named capture group
 				current_index := index + 2
-				current := regexp[current_index]
 				identifier := ""
-				for unicode.IsDigit(rune(current)) || unicode.IsLetter(rune(current)) {
-					identifier += string(current)
+				for current_index < len(regexp) && (unicode.IsDigit(rune(regexp[current_index])) || unicode.IsLetter(rune(regexp[current_index]))) {
+					identifier += string(regexp[current_index])
 					current_index += 1
-					current = regexp[current_index]
 				}
-				if regexp[current_index] != '>' {
+				if current_index >= len(regexp) || regexp[current_index] != '>' {
 					return nil, current_index, NewParseError(regexp_token, "Unexpected character in named capture group identifier.")
 				}
 				body, next_index, err := parse_regexp_disjunction(regexp_token, regexp, current_index+1)
 				if err != nil {
 					return nil, next_index, err
 				}
-				if regexp[next_index] != ')' {
+				if next_index >= len(regexp) || regexp[next_index] != ')' {
 					return nil, next_index, NewParseError(regexp_token, "Expected end parenthesis")
 				}
 				return &AstSubExpr{[]AstExpression{&AstDec{identifier, &AstSubExpr{body}}}}, next_index + 1, nil
@@ -409,7 +434,7 @@ func parse_regexp_groups(regexp_token *Token, regexp string, index int) (AstLite
 	if err != nil {
 		return nil, next_index, err
 	}
-	if regexp[next_index] != ')' {
+	if next_index >= len(regexp) || regexp[next_index] != ')' {
 		return nil, next_index, NewParseError(regexp_token, "Expected end parenthesis")
 	}
 	capture_group_number += 1
